@@ -377,6 +377,8 @@ class DiscreteQuadraticModel:
             TypeError: If `label` is not hashable.
 
         """
+        if len(range(num_cases)) == 0:  # TypeError for a non-integer, before the label is appended
+            raise ValueError("num_cases must be a positive integer")
         self.variables._append(label)
         variable_index = self._cydqm.add_variable(num_cases)
         assert variable_index + 1 == len(self.variables)
